@@ -89,13 +89,17 @@ def connected(nprocs, orders):
 
 
 def rand_layout_set(rng, nd, nprocs, k=None, want_connected=True):
-    """k distinct random permutations (as dict name -> order); connected under `compatible` if asked"""
+    """k distinct random permutations (as dict name -> order); connected under `compatible` if want_connected, NOT connected if it is False
+    (when such a set exists), either if None"""
     perms = all_perms(nd)
     for _ in range(200):
         kk = k or rng.randint(2, min(5, len(perms)))
         orders = rng.sample(perms, kk)
-        if not want_connected or connected(nprocs, orders):
+        if want_connected is None or connected(nprocs, orders) == bool(want_connected):
             return {'L%d' % i: list(o) for i, o in enumerate(orders)}
+    if not want_connected:
+        # (no unconnected set exists for this grid, e.g. a single process direction)
+        return rand_layout_set(rng, nd, nprocs, k, True)
     o = rng.choice(perms)
     return {'L0': list(o)}
 
